@@ -101,7 +101,17 @@ impl CgCtx {
     }
 
     pub fn add_search_table(&mut self, ranges: Vec<(char, char)>) -> syn::Ident {
-        self.codegen_state.search_tables.add_table(ranges)
+        self.codegen_state
+            .search_tables
+            .add_table(&self.lexer_name, ranges)
+    }
+
+    /// Name of the binary search function for the search tables of this lexer.
+    pub fn binary_search_fn_ident(&self) -> syn::Ident {
+        syn::Ident::new(
+            &format!("{}_BINARY_SEARCH", self.lexer_name),
+            self.lexer_name.span(),
+        )
     }
 
     pub fn take_search_tables(&mut self) -> SearchTableSet {
